@@ -84,6 +84,9 @@ def userLe (m : Mode) (s : String) : Option (List UInt8) :=
 def step (m : Mode) (w : World) : List String → World × String
   | ["new"] => (World.empty, "ok")
   | ["grant", g, st, ex, u, k, cmd] =>
+    -- `z`: the bound was never filled in (Go's zero time.Time, year 1): before every clock value, like 0
+    let st := if st = "z" then "0" else st
+    let ex := if ex = "z" then "0" else ex
     match natLt g 256, natLt st tMax, natLt ex tMax, userLe m u, natLt k 65536, bytesLe cmd 255 with
     | some g, some st, some ex, some u, some k, some cmd =>
       (stepW w (.grant ⟨g, cmd, st, ex, u, k⟩), "ok")
